@@ -96,8 +96,37 @@ func hashPatterns(c *Ctx, n int, full bool) [][]byte {
 	return out
 }
 
+// edgeScalars (untrusted planner, cached): small private keys whose public point has an X or a Y coordinate that
+// starts with a zero byte (1 in 256 each) -- hand-written serialisation and padding code is wrong exactly there.
+var edgeScalarCache [][]byte
+
+func edgeScalars() [][]byte {
+	if edgeScalarCache != nil {
+		return edgeScalarCache
+	}
+	nx, ny := 0, 0
+	for v := 2; v < 6000 && (nx < 2 || ny < 3); v++ {
+		var kb [32]byte
+		kb[30], kb[31] = byte(v>>8), byte(v)
+		_, pub := bchec.PrivKeyFromBytes(bchec.S256(), kb[:])
+		u := pub.SerializeUncompressed()
+		if u[1] == 0 && nx < 2 {
+			nx++
+			edgeScalarCache = append(edgeScalarCache, append([]byte{}, kb[:]...))
+		} else if u[33] == 0 && ny < 3 {
+			ny++
+			edgeScalarCache = append(edgeScalarCache, append([]byte{}, kb[:]...))
+		}
+	}
+	return edgeScalarCache
+}
+
 func randPubKeys(c *Ctx, k int) [][]byte {
 	var out [][]byte
+	for _, sc := range edgeScalars() {
+		_, pub := bchec.PrivKeyFromBytes(bchec.S256(), sc)
+		out = append(out, pub.SerializeCompressed(), pub.SerializeUncompressed(), pub.SerializeHybrid())
+	}
 	for i := 0; i < k; i++ {
 		sc := randBytes(c.Rng, 32)
 		sc[0] &= 0x7f
@@ -201,6 +230,18 @@ func runC02(c *Ctx) {
 						prefixes = append(prefixes, cp+"x", cp+"sv", cp+cp, cp[:len(cp)-1], cp[1:], "x"+cp)
 						if sp != "" {
 							prefixes = append(prefixes, sp+"s", sp+"net", sp[:len(sp)-1], sp[1:], cp+sp)
+						}
+					}
+					// a payload whose checksum was computed for ANOTHER prefix than the one written in front of it (a decoder
+					// that tries several prefixes must not let the attempts bleed into each other)
+					if (ver == 0 || ver == 8) && ln == 20 && pad == 0 {
+						known := []string{"bitcoincash", "simpleledger", "bchtest", "slptest", "bchreg", "slpreg", "bchsim", n.CashAddressPrefix, n.SlpAddressPrefix}
+						for _, written := range known {
+							for _, summed := range known {
+								if written != summed && written != "" && summed != "" {
+									decode(c, written+":"+refCashString(summed, syms), net)
+								}
+							}
 						}
 					}
 					for pi, pfx := range prefixes {
@@ -372,6 +413,13 @@ func runC02(c *Ctx) {
 				bb := append([]byte{}, b...)
 				bb[len(bb)-1] ^= 1
 				decode(c, base58Ref(bb), net)
+			}
+			if ln == 20 && (ver == 0 || ver == 5 || ver == 111) { // forgeries confined to the checksum bytes
+				for _, q := range checksumForgeries(b) {
+					for nn := 1; nn <= len(nets); nn += 2 {
+						decode(c, base58Ref(q), nn)
+					}
+				}
 			}
 		}
 	}
